@@ -10,7 +10,12 @@ for j in selftest/$pat.json seeded/$pat/meta.json; do
   props=$(python3 -c "import json;m=json.load(open('$j'));print(' '.join(m.get('properties') or [m.get('property')]))")
   S=$(mktemp -d /tmp/govc-self.XXXXXX)
   git -C /repo worktree add -q --detach $S/repo HEAD 2>/dev/null || { cp -r /repo $S/repo; }
-  if ! git -C $S/repo apply "$PWD/$diff" 2>/dev/null; then (cd $S/repo && patch -p1 -s < "$PWD/$diff") || { echo "SELFTEST $name: patch does not apply"; fail=1; }; fi
+  if ! git -C $S/repo apply "$PWD/$diff" 2>/dev/null; then
+    if ! (cd $S/repo && patch -p1 -s < "$PWD/$diff" >/dev/null 2>&1); then
+      echo "SELFTEST $name: PATCH DOES NOT APPLY to the current HEAD (rebase or retire it); skipped"; fail=1
+      git -C /repo worktree remove --force $S/repo 2>/dev/null; rm -rf $S; continue
+    fi
+  fi
   for p in $props; do
     out=$(GOVC_REPO=$S/repo GOVC_EVIDENCE_DIR=$S/ev ./check $p quick 2>&1); rc=$?
     if [ $rc -eq 1 ] && echo "$out" | grep -q "^VIOLATION property=$p"; then
